@@ -332,9 +332,14 @@ func (g *cgen) body(res byte, depth int, ind string) (string, string) {
 	}
 	choice := g.r.Intn(8)
 	if g.st {
-		choice = g.r.Intn(15)
+		choice = g.r.Intn(18)
 	}
 	switch choice {
+	case 15, 16, 17:
+		if s, tm, ok := g.localIf(res, depth, ind); ok {
+			return s, tm
+		}
+		return g.varDecl(res, depth, ind)
 	case 8, 9, 10:
 		return g.varDecl(res, depth, ind)
 	case 11, 12, 13, 14:
@@ -721,4 +726,99 @@ func (g *cgen) assign(res byte, depth int, ind string) (string, string, bool) {
 	}
 	kgo, kterm := g.body(res, depth-1, ind)
 	return line + kgo, fmt.Sprintf("(%s %s)", head, kterm), true
+}
+
+// the assignable variables in scope
+func (g *cgen) ptrVars() []cvar {
+	var vs []cvar
+	for _, v := range g.vars {
+		if g.ptr[v.name] {
+			vs = append(vs, v)
+		}
+	}
+	return vs
+}
+
+// one assignment form on v: the Go line and the sstmt term
+func (g *cgen) simpleAssign(v cvar, ind string) (string, string) {
+	switch k := g.r.Intn(5); {
+	case k < 2 || v.t == 'b':
+		e := g.gen(v.t, 2)
+		return ind + v.name + " = " + e.gosrc + "\n", fmt.Sprintf("(TAsg %q %s)", v.name, e.term)
+	case k < 4:
+		o := rng.Pick(g.r, [][2]string{{"+=", "OAdd"}, {"-=", "OSub"}, {"|=", "OOr"}, {"&=", "OAnd"}, {"^=", "OXor"}})
+		e := g.genU(2)
+		return ind + v.name + " " + o[0] + " " + e.gosrc + "\n", fmt.Sprintf("(TOpAsg %s %q %s)", o[1], v.name, e.term)
+	}
+	inc := g.r.Bool()
+	return ind + v.name + map[bool]string{true: "++", false: "--"}[inc] + "\n", fmt.Sprintf("(TIncD %t %q)", inc, v.name)
+}
+
+// a list of statements without control effects (the branch of an if that more statements follow)
+func (g *cgen) locBlock(depth int, ind string) (string, string) {
+	vs := g.ptrVars()
+	var lines []string
+	var heads []string // "(LSimple st" / "(LIfL c th el" : each takes the rest as its last argument
+	n := 1 + g.r.Intn(2)
+	for i := 0; i < n; i++ {
+		v := rng.Pick(g.r, vs)
+		switch k := g.r.Intn(5); {
+		case k == 0 && v.t == 'u':
+			// a local of the branch, used by the assignment after it
+			g.fresh++
+			x := fmt.Sprintf("loc%d", g.fresh)
+			e, ok := g.nonConst('u', 2)
+			if !ok {
+				e = cex{gosrc: v.name, term: fmt.Sprintf("(CVar %q)", v.name)}
+			}
+			e2 := g.genU(1)
+			lines = append(lines, ind+x+" := "+e.gosrc+"\n", ind+v.name+" = ("+x+" + "+e2.gosrc+")\n")
+			heads = append(heads, fmt.Sprintf("(LSimple (TLet %q %s)", x, e.term),
+				fmt.Sprintf("(LSimple (TAsg %q (CBin OAdd (CVar %q) %s))", v.name, x, e2.term))
+		case k == 1 && depth > 0:
+			c, ok := g.nonConst('b', 2)
+			if !ok {
+				c = cex{gosrc: "true", term: "(CBool true)"}
+			}
+			tgo, tterm := g.locBlock(depth-1, ind+"\t")
+			if g.r.Bool() {
+				egoo, eterm := g.locBlock(depth-1, ind+"\t")
+				lines = append(lines, ind+"if "+c.gosrc+" {\n"+tgo+ind+"} else {\n"+egoo+ind+"}\n")
+				heads = append(heads, fmt.Sprintf("(LIfL %s %s %s", c.term, tterm, eterm))
+			} else {
+				lines = append(lines, ind+"if "+c.gosrc+" {\n"+tgo+ind+"}\n")
+				heads = append(heads, fmt.Sprintf("(LIfL %s %s LEnd", c.term, tterm))
+			}
+		default:
+			l, tm := g.simpleAssign(v, ind)
+			lines = append(lines, l)
+			heads = append(heads, "(LSimple "+tm)
+		}
+	}
+	term := "LEnd"
+	for i := len(heads) - 1; i >= 0; i-- {
+		term = heads[i] + " " + term + ")"
+	}
+	return strings.Join(lines, ""), term
+}
+
+// if c { ... } [else { ... }] without control effects; rest (MiniGoS)
+func (g *cgen) localIf(res byte, depth int, ind string) (string, string, bool) {
+	if len(g.ptrVars()) == 0 {
+		return "", "", false
+	}
+	c, ok := g.nonConst('b', 2)
+	if !ok {
+		return "", "", false
+	}
+	tgo, tterm := g.locBlock(1, ind+"\t")
+	src := ind + "if " + c.gosrc + " {\n" + tgo + ind + "}\n"
+	eterm := "LEnd"
+	if g.r.Bool() {
+		var egoo string
+		egoo, eterm = g.locBlock(1, ind+"\t")
+		src = ind + "if " + c.gosrc + " {\n" + tgo + ind + "} else {\n" + egoo + ind + "}\n"
+	}
+	kgo, kterm := g.body(res, depth-1, ind)
+	return src + kgo, fmt.Sprintf("(SIfL %s %s %s %s)", c.term, tterm, eterm, kterm), true
 }
